@@ -3,8 +3,10 @@ package props
 import (
 	"context"
 	"fmt"
+	"net/http"
 	"strings"
 	"sync"
+	"sync/atomic"
 	"testing"
 	"time"
 
@@ -37,6 +39,8 @@ func (f *c18Filter) cookieName() string {
 	return "__Host-" + f.prefix + "-authservice-session-id-cookie"
 }
 
+var c18Fronts int64 // every world gets a front host of its own: the service caches discovery documents per URL for the life of the process
+
 type c18World struct {
 	fs     []*c18Filter
 	filter *server.ExtAuthZFilter
@@ -46,15 +50,33 @@ type c18World struct {
 	why    string
 }
 
-func newC18World(c *sim.Case, n int, storeMode string, timeouts [][2]int) *c18World {
+// With discovery[0], every filter finds its endpoints through configuration_uri, and all those URIs name ONE host and
+// path of a multi-tenant provider front and differ only in the query (?p=<filter>), as with per-policy metadata
+// documents; in-process deployments only.
+func newC18World(c *sim.Case, n int, storeMode string, timeouts [][2]int, discovery ...bool) *c18World {
 	w := &c18World{}
+	disc := len(discovery) > 0 && discovery[0]
 	// a third of the configurations run as the built service binary (cmd/main.go) behind gRPC
-	binary := sim.ServiceBinary() != "" && sim.Weighted(c, "binary", 2, 1) == 1
+	binary := !disc && sim.ServiceBinary() != "" && sim.Weighted(c, "binary", 2, 1) == 1
 	if binary {
 		c.Class("deployment:service-binary")
 	}
 	full := &configv1.Config{}
 	mr, _ := sim.Redis()
+	byName := map[string]*sim.IdP{}
+	c18Front := fmt.Sprintf("login-%d.multi-tenant.test", atomic.AddInt64(&c18Fronts, 1))
+	if disc {
+		w.stops = append(w.stops, func() { sim.UnregisterHost(c18Front) })
+		// the front answers the metadata request for ?p=<filter> with that filter's provider's own document
+		sim.RegisterHost(c18Front, http.HandlerFunc(func(rw http.ResponseWriter, r *http.Request) {
+			if p := byName[r.URL.Query().Get("p")]; p != nil {
+				p.ServeHTTP(rw, r)
+				return
+			}
+			http.NotFound(rw, r)
+		}))
+		c.Class("discovery:one-host-query-selected")
+	}
 	// cookie-name prefixes: unrelated, or nested (one a prefix of the other), or one filter on the default name
 	prefixes := [][]string{{"f0", "f1", "f2"}, {"app", "app-admin", "app-admin-x"}, {"", "f1", "f2"}, {"tenant", "", "tenant-b"}}[sim.Pick(c, "prefix-shape", 4)]
 	for i := 0; i < n; i++ {
@@ -80,6 +102,11 @@ func newC18World(c *sim.Case, n int, storeMode string, timeouts [][2]int) *c18Wo
 			CookieNamePrefix: f.prefix, IdToken: &oidcv1.TokenConfig{Header: "authorization", Preamble: "Bearer"},
 			AccessToken:            &oidcv1.TokenConfig{Header: "x-access-token"},
 			AbsoluteSessionTimeout: uint32(timeouts[i][0]), IdleSessionTimeout: uint32(timeouts[i][1]),
+		}
+		if disc {
+			byName[f.name] = f.idp
+			f.cfg.AuthorizationUri, f.cfg.TokenUri = "", ""
+			f.cfg.ConfigurationUri = "http://" + c18Front + "/.well-known/openid-configuration?p=" + f.name
 		}
 		if f.store == "redis" {
 			f.cfg.RedisSessionStoreConfig = &oidcv1.RedisConfig{ServerUri: "redis://" + mr.Addr()}
@@ -108,7 +135,11 @@ func newC18World(c *sim.Case, n int, storeMode string, timeouts [][2]int) *c18Wo
 	if err := fac.PreRun(); err != nil {
 		panic(err)
 	}
-	w.filter = server.NewExtAuthZFilter(full, tls, oidc.NewJWKSProvider(full, tls), fac)
+	prov := oidc.NewJWKSProvider(full, tls)
+	if disc {
+		go func() { _ = prov.ServeContext(ctx) }() // discovered key sets come through the fetcher
+	}
+	w.filter = server.NewExtAuthZFilter(full, tls, prov, fac)
 	return w
 }
 
@@ -195,7 +226,7 @@ func c18Prop(c *sim.Case) {
 	}
 	stop := sim.RealTimeRedis()
 	defer stop()
-	w := newC18World(c, n, storeMode, timeouts)
+	w := newC18World(c, n, storeMode, timeouts, sim.Weighted(c, "discovery-shape", 3, 1) == 1)
 	defer w.close()
 	createdBy := map[string]*c18Filter{} // ghost map: session id -> filter that created it
 	ai := sim.Pick(c, "A", n)
@@ -340,10 +371,13 @@ func c18Prop(c *sim.Case) {
 // c18Timeouts: each filter's own (absolute, idle) timeouts govern the sessions created through it (real time).
 func c18Timeouts(c *sim.Case) {
 	n := 2 + sim.Pick(c, "nfilters", 2)
-	storeMode := sim.PickStr(c, "stores", "memory", "redis", "mixed", "mixed-redis-first")
+	storeMode := sim.PickStr(c, "stores", "memory", "redis", "mixed", "mixed-redis-first", "redis-dbs")
 	var timeouts [][2]int
 	for i := 0; i < n; i++ {
 		a, d := sim.Pick(c, "abs", 4), sim.Pick(c, "idle", 4)
+		if i > 0 && sim.Weighted(c, "no-limits", 2, 1) == 1 {
+			a, d = 0, 0 // a later filter without limits of its own: its sessions must simply stay
+		}
 		timeouts = append(timeouts, [2]int{a, d})
 	}
 	stop := sim.RealTimeRedis()
